@@ -1621,3 +1621,63 @@ def check_recovered_status(R, tonic, rule, fields):
             nfa += 1
             R.check(fname in got, rule, 'recovered:%s' % fname, site(fs_, bb), 'Status::%s(..) is given the found status\'s %s: %r (arguments use %r)' % (t['name'], fname, fname in got, sorted(got)))
     R.floor(rule, 'fields of the recovered status', nfa, len(fields))
+
+
+def check_trailers_only_read(R, tonic, rule):
+    """create_response reads the grpc-status of the response *headers* whenever the encoding check let the response through: a
+    condition in front of it (body.is_end_stream(), a content-length, an HTTP status) makes a Trailers-Only error invisible for
+    responses that do not meet it - the call then ends with "Missing response message" or, for a stream, successfully."""
+    cr = tonic.body('client::grpc::Grpc::<T>::create_response')
+    R.saw(cr)
+    fm = cr.calls(pat='Status::from_header_map')
+    R.check(len(fm) == 1, rule, 'trailers-only-status-read:one-site', site(cr), 'Status::from_header_map sites in create_response: %d' % len(fm))
+    if len(fm) == 1:
+        gs = [(vals, tm) for s_, vals, tm in cr.edge_guards(fm[0][0]) if not term_contains(tm, lambda y: is_call(y, name='branch'))]
+        R.check(not gs, rule, 'trailers-only-status-read-unconditionally', site(cr, fm[0][0]),
+                'conditions in front of Status::from_header_map(response.headers()): %r' % [(v, show(tm)[:70]) for v, tm in gs])
+
+
+def header_key_of(crate, term, depth=0):
+    """the header name a key operand denotes, when it can be read: a string literal, a crate const / static with a literal or
+    HeaderName::from_static(literal) initialiser, HeaderName::from_static / from_bytes / try_from(literal) in place, or one of
+    http's own header constants (lower-cased const name with '-' for '_').  None when it is computed."""
+    t = strip_refs(term)
+    s = const_str(t)
+    if s is not None:
+        return (s.decode('latin1') if isinstance(s, bytes) else s).lower()
+    cd = constdef(t)
+    if cd:
+        if cd.startswith('http::header::') and cd.rsplit('::', 1)[1].isupper():
+            return cd.rsplit('::', 1)[1].lower().replace('_', '-')
+        v = const_value(crate, t)
+        if isinstance(v, (str, bytes)):
+            return (v.decode('latin1') if isinstance(v, bytes) else v).lower()
+        if depth < 2:
+            try:
+                return header_name_value(crate, cd).lower()
+            except CheckError:
+                return None
+        return None
+    if isinstance(t, tuple) and t and t[0] == 'call' and depth < 3:
+        nm = t[3]
+        if nm in ('from_static', 'from_bytes', 'try_from', 'from', 'into', 'from_lowercase', 'unwrap', 'expect', 'clone', 'as_str', 'as_ref', 'borrow', 'deref') and t[2]:
+            return header_key_of(crate, t[2][0], depth + 1)
+    return None
+
+
+HEADER_MUTATORS = ('insert', 'append', 'remove', 'entry', 'try_insert', 'try_append', 'try_entry', 'remove_entry')
+
+
+def header_writes(crate, names):
+    """[(body, bb, call term, header name)] - every HeaderMap / MetadataMap mutation in the crate whose key reads as one of `names`"""
+    out = []
+    for b in crate.bodies:
+        if b.kind == 'promoted':
+            continue
+        for bb, t in b.calls():
+            if t.get('name') not in HEADER_MUTATORS or len(t['args']) < 2:
+                continue
+            k = header_key_of(crate, b.origin(t['args'][1]))
+            if k in names:
+                out.append((b, bb, t, k))
+    return out
